@@ -94,4 +94,45 @@ theorem op_table :
   intro r c h
   cases r <;> cases c <;> first | (constructor <;> decide) | exact absurd ⟨rfl, rfl⟩ h
 
+/-- **a directory of advisories is judged advisory by advisory**: for any number of advisory files read by one
+`GlsaDirSet`, the verdicts on a package are — in order, one per reported entry — those of the reference evaluator on
+each entry taken on its own; in particular the verdict of an entry does not depend on which other advisories the
+directory holds, on their order, or on what was evaluated before (the same version text may occur as an exact range in
+one advisory and as a glob in the next, with or without slot, as vulnerable and as unaffected range). -/
+theorem directory_eq_loose_spec (files : List (List PkgNode)) (hs : ∀ nodes ∈ files, ∀ n ∈ nodes, StdOps n) (p : Pkg) :
+    dirMatch files p = files.flatMap (fun nodes => nodes.filterMap (fun n => affected true n p)) ∧
+    ∀ before after nodes, files = before ++ nodes :: after →
+      dirMatch files p = dirMatch before p ++ nodes.filterMap (fun n => affected true n p) ++ dirMatch after p := by
+  have key : ∀ fs : List (List PkgNode), (∀ nodes ∈ fs, ∀ n ∈ nodes, StdOps n) →
+      dirMatch fs p = fs.flatMap (fun nodes => nodes.filterMap (fun n => affected true n p)) := by
+    intro fs h
+    unfold dirMatch
+    induction fs with
+    | nil => rfl
+    | cons nodes fs ih =>
+      simp only [List.flatMap_cons]
+      rw [ih (fun ns hns => h ns (by simp [hns]))]
+      congr 1
+      have hn : ∀ n ∈ nodes, StdOps n := fun n hnn => h nodes (by simp) n hnn
+      clear ih h
+      induction nodes with
+      | nil => rfl
+      | cons n ns ihn =>
+        simp only [List.filterMap_cons]
+        rw [affected_eq_loose_spec n (hn n (by simp)) p, ihn (fun m hm => hn m (by simp [hm]))]
+  refine ⟨key files hs, ?_⟩
+  intro before after nodes hf
+  subst hf
+  have h1 : dirMatch (before ++ nodes :: after) p = dirMatch before p ++ dirMatch [nodes] p ++ dirMatch after p := by
+    unfold dirMatch
+    simp [List.flatMap_append, List.flatMap_cons]
+  rw [h1]
+  have h2 := key [nodes] (by
+    intro ns hns n hn
+    rw [List.mem_singleton] at hns
+    subst hns
+    exact hs ns (by simp) n hn)
+  rw [h2]
+  simp
+
 end Pkgcore.C45
